@@ -1,13 +1,5 @@
 package runtime
 
-import _ "unsafe"
-
-//go:linkname nd_go github.com/goplus/llgo/runtime/internal/zzstand/psync.Go
-func nd_go(f func())
-
-//go:linkname nd_join github.com/goplus/llgo/runtime/internal/zzstand/psync.Join
-func nd_join() bool
-
 // one acquirer, one releaser on a semaphore that starts at 0
 func H_sema_acq_rel() {
 	var sem uint32
